@@ -419,7 +419,8 @@ static void gen(hx_plan_t *p, hx_rng_t *r)
     hx_set_knob(p, "coll_bcast", bc[hx_below(r, 4)]);
     hx_set_knob(p, "short_limit", hx_chance(r, 50) ? -1 : 0);
     hx_set_knob(p, "aggregate", hx_chance(r, 30) ? 0 : -1);
-    hx_set_knob(p, "thread_multiple", hx_chance(r, 25) ? 1 : -1);
+    hx_set_knob(p, "thread_multiple", hx_chance(r, 50) ? -1 : hx_chance(r, 50));
+    hx_set_knob(p, "mpi_multiple", hx_chance(r, 50));
     int M, N, mb, nb;
     long grid;
     if (prop == 21) {
@@ -626,6 +627,7 @@ static void run(const hx_plan_t *p, hx_result_t *res)
     cfg.testsome_lag_pct = (int)hx_knob(p, "net_lag", 0);
     cfg.testsome_lag_max = 3;
     cfg.late_send_pct = (int)hx_knob(p, "net_late", 0);
+    cfg.thread_level = hx_knob(p, "mpi_multiple", 0) ? 3 /* MPI_THREAD_MULTIPLE */ : 0;      /* the library grants MPI_THREAD_MULTIPLE although the driver asks for SERIALIZED: PaRSEC then goes multi-threaded on MPI */
     simmpi_reset(SH.nranks, hx_current_seed(), &cfg);
     pthread_t pt[16];
     mat_rank_arg_t ra[16];
